@@ -104,6 +104,25 @@ thread_local! {
     static MATCHES: std::cell::RefCell<Vec<(usize, Vec<usize>)>> = const { std::cell::RefCell::new(Vec::new()) };
 }
 
+thread_local! {
+    static COMPILES: std::cell::RefCell<Vec<String>> = const { std::cell::RefCell::new(Vec::new()) };
+}
+
+/// Forget regex sources left over from an earlier `generate` on this thread.
+pub fn reset_compiles() {
+    COMPILES.with(|c| c.borrow_mut().clear());
+}
+
+/// The regex source handed to `Pattern::compile`, with its flags (line CSRC, in call order: subpattern
+/// test compiles, skips, then variants).
+pub fn record_compile(regex: &str, unicode: bool, ignore_case: bool) {
+    let mut line = format!("CSRC {} {} ", unicode as u32, ignore_case as u32);
+    for b in regex.bytes() {
+        write!(line, "{:02x}", b).unwrap();
+    }
+    COMPILES.with(|c| c.borrow_mut().push(line));
+}
+
 /// Forget match lists left over from a run that did not reach `record_raw` (a panic).
 pub fn reset_matches() {
     MATCHES.with(|m| m.borrow_mut().clear());
@@ -220,6 +239,10 @@ pub fn record(graph: &Graph, utf8: bool) {
                 out.push('\n');
             }
         }
+    }
+    for line in COMPILES.with(|c| std::mem::take(&mut *c.borrow_mut())) {
+        out.push_str(&line);
+        out.push('\n');
     }
     out.push_str("END\n");
     DUMP.with(|d| *d.borrow_mut() = Some(out));
